@@ -39,7 +39,17 @@ def gen_sim_case(rng):
             labs += [l for l in mc["labels"] if l not in labs]
         if d["gmcs"]:
             # full model simulation pairs global and model columns by label
-            gl = list(labs)
+            # the global labels are the model labels in ANOTHER order, sometimes with one more global label that pairs with nothing: the clp
+            # matrix (global label x model label) of the truth is then neither symmetric nor square
+            gl = list(labs)[::-1]
+            if rng.random() < 0.5:
+                gl.append("z")
+            # ... and the model matrix of a full model is index dependent in most cases (the Kronecker product is then built index by index)
+            for mc in d["mcs"]:
+                if not mc["idx"] and rng.random() < 0.7:
+                    mc["idx"] = True
+                    mc["cols"] = [[[(v + (1 if (gi + ci + ri) % 3 == 0 else 0)) % 2 if gi else v for ri, v in enumerate(col)] for ci, col in enumerate(mc["cols"])]
+                                  for gi in range(len(d["axis"]))]
             d["gmcs"] = [{"scale": 1, "labels": gl, "cols": [[rng.choice([0, 1, 1, 2]) for _ in d["axis"]] for _ in gl]}]
             d["simclp"] = []
         else:
@@ -51,6 +61,27 @@ def gen_sim_case(rng):
     return c
 
 
+def full_idx_case(rng):
+    """A full model (global megacomplex) whose model matrix is index dependent, with enough points to be well posed: 3 x 3 data,
+    model labels [a, b], global labels [b, a] or [b, a, z] (another order, sometimes one label more): the truth's clp matrix is neither
+    symmetric nor square.  0/1 entries; rank checked numerically here, exactly by Objective.tla afterwards."""
+    import numpy as np
+    for _ in range(200):
+        ng, nm = 3, 3
+        cols = [[[rng.choice([0, 1, 1]) for _ in range(nm)] for _ in ("a", "b")] for _ in range(ng)]
+        gl = ["b", "a"] + (["z"] if rng.random() < 0.6 else [])
+        gcols = [[rng.choice([0, 1, 1, 2]) for _ in range(ng)] for _ in gl]
+        G = np.array(gcols, dtype=float).T                               # n_global x Lg
+        F = np.concatenate([np.kron(G[i, :], np.array(cols[i], dtype=float).T) for i in range(ng)])
+        if np.linalg.matrix_rank(F) == F.shape[1] and len({json.dumps(c_) for c_ in cols}) > 1:
+            break
+    d = {"label": "dataset1", "group": "default", "axis": [0, 1, 2], "maxis": [], "scale": 1, "data": [[0] * ng for _ in range(nm)], "weight": [],
+         "mcs": [{"scale": 1, "labels": ["a", "b"], "idx": True, "cols": cols}], "gmcs": [{"scale": 1, "labels": gl, "cols": gcols}], "transposed": rng.random() < 0.3,
+         "simclp": []}
+    return {"groups": [{"label": "default", "link": rng.choice([False, None]), "residual_function": "variable_projection", "datasets": ["dataset1"], "has_global": True}],
+            "datasets": [d], "relations": [], "constraints": [], "penalties": [], "weights": []}
+
+
 def lattice_part(chk: Check, rng, n, shards):
     import numpy as np
     import xarray as xr
@@ -58,7 +89,7 @@ def lattice_part(chk: Check, rng, n, shards):
     from .c03 import run_optimize
     from .lattice import build
     from .objective import real_objective
-    cases = [gen_sim_case(rng) for _ in range(n)]
+    cases = [gen_sim_case(rng) for _ in range(n)] + [full_idx_case(rng) for _ in range(max(10, n // 12))]
     exp, tot = tlc_expected(cases, shards=shards, module="ObjectiveSim", invs=["InvZeroAtTruth", "InvEachPointOnce"])
     chk.add_tlc(tot, "ObjectiveSim")
     nin = 0
